@@ -272,11 +272,30 @@ impl Real {
     fn via_router(&self, router: &Router, path: &str, body: &Option<Value>) -> Ret {
         let mut b = Message::builder().id(7).query_str(path);
         if let Some(v) = body {
-            b = b.body_json(v).map_err(|_| 9999u32)?;
+            // the same value in any of the encodings the registry accepts
+            b = match (simkernel::choose(3), v) {
+                (1, Value::String(text)) if !text.is_empty() => {
+                    simkernel::count("probe.registry_body_as_utf8_text");
+                    b.body_utf8(text)
+                }
+                (2, _) if beve::to_vec(v).ok().and_then(|bytes| beve::from_slice::<Value>(&bytes).ok()).as_ref() == Some(v) => {
+                    simkernel::count("probe.registry_body_as_beve");
+                    b.body_bytes(beve::to_vec(v).unwrap()).body_format(BodyFormat::Beve)
+                }
+                _ => b.body_json(v).map_err(|_| 9999u32)?,
+            };
         }
         let req = b.build();
         let Some(h) = router.get(path) else { return Err(NOT_FOUND) };
-        let resp = h.handle(&req).map_err(|_| 9998u32)?;
+        // ... through the owning entry point or the borrowing one the servers use
+        let resp = if simkernel::choose(2) == 0 {
+            h.handle(&req).map_err(|_| 9998u32)?
+        } else {
+            simkernel::count("probe.registry_via_handle_view");
+            let wire = req.to_vec();
+            let view = repe::message::MessageView::from_slice_exact(&wire).map_err(|_| 9995u32)?;
+            h.handle_view(&view, &repe::peer::CallContext::detached(path)).map_err(|_| 9998u32)?
+        };
         if resp.header.ec != ErrorCode::Ok as u32 {
             return Err(resp.header.ec);
         }
@@ -348,6 +367,14 @@ fn gen_value(uniq: &mut u64) -> Value {
         1 => json!([*uniq, *uniq + 1000]),
         2 => json!({"a": {"x": *uniq}, "0": *uniq}),
         3 => Value::String(format!("s{uniq}")),
+        // strings that look like other JSON: a text body must stay a string
+        4 if simkernel::choose(2) == 0 => Value::String(match simkernel::choose(5) {
+            0 => format!("{uniq}"),
+            1 => "true".to_string(),
+            2 => format!("{{\"a\":{uniq}}}"),
+            3 => format!("[{uniq}]"),
+            _ => "null".to_string(),
+        }),
         _ => json!(*uniq),
     }
 }
